@@ -33,6 +33,10 @@ Fixpoint coll_root (c : coll) : N * beh :=
   match c with CLeaf i b => (i, b) | CWrap _ c' => coll_root c' | CLayered _ c' => coll_root c' end.
 Definition root_id (c : coll) : N := fst (coll_root c).
 Definition root_beh (c : coll) : beh := snd (coll_root c).
+(** What the root collector itself records of a call: one entry — nothing when the root is the `Registry` (it is not a
+    recording collector; every layer above it still is). *)
+Definition root_ents (c : coll) (m : meth) (a : arg) : list entry :=
+  if b_registry (root_beh c) then [] else [(root_id c, m, a)].
 
 (** Layers of a stack that receive [m], inner -> outer (the root collector is not a layer). *)
 Fixpoint coll_recv (pof : bool) (m : meth) (c : coll) : list N :=
@@ -64,7 +68,7 @@ Fixpoint sub_ask (s : sub) : list (N * bool * beh) :=       (* (leaf, is it a Fi
   end.
 Fixpoint coll_ask (c : coll) : list (N * bool * beh) :=
   match c with
-  | CLeaf i b => [(i, false, b)]
+  | CLeaf i b => if b_registry b then [] else [(i, false, b)]     (* a `Registry` always says yes and records nothing *)
   | CWrap _ c' => coll_ask c'
   | CLayered s c' => sub_ask s ++ coll_ask c'
   end.
@@ -108,6 +112,45 @@ Fixpoint linear_sub (s : sub) : bool :=
 Fixpoint linear (c : coll) : bool :=
   match c with CLeaf _ _ => true | CWrap _ c' => linear c' | CLayered s c' => linear_sub s && linear c' end.
 
+(** ** `register_callsite` on ANY stack: what "outer first until `never`" means for a tree.
+
+    The walk visits the tree in the order of [coll_ask] (a pair's outer half before its inner half, a layer before the
+    collector underneath, Vec elements left to right) and computes an interest for every subtree:
+    - a recording leaf is asked (one entry) and answers for itself; `None` / Identity / a `None` filter are not asked and
+      count as `always`; a `Registry` root is not recorded and answers `always`;
+    - a pair `inner.and_then(outer)` and a stack `c.with(s)`: the outer side ([o] / [s]) first; **if its interest is `never`
+      the whole inner side is skipped** and the result is `never`; otherwise the inner side is walked, and the result is
+      `sometimes` if the outer side said `sometimes`, else the inner side's interest;
+    - a Vec asks **all** its elements, whatever they answer, and folds: `never` if any is, `always` if all are, else
+      `sometimes` (f08c5cd). *)
+Fixpoint filt_rc (a : arg) (f : filt) : list entry * interest :=
+  match f with
+  | FLeaf i b => ([(i, callsite_enabled, a)], b_interest b (a_cs a))
+  | FWrap _ x => filt_rc a x
+  | FNone => ([], IAlways)
+  end.
+Definition rc_pick (ro : list entry * interest) (ri : list entry * interest) : list entry * interest :=
+  if is_never (snd ro) then (fst ro, INever)
+  else (fst ro ++ fst ri, if is_sometimes (snd ro) then ISometimes else snd ri).
+Fixpoint rc_sub (a : arg) (s : sub) : list entry * interest :=
+  match s with
+  | SLeaf i b => ([(i, register_callsite, a)], b_interest b (a_cs a))
+  | SWrap _ x => rc_sub a x
+  | SNone => ([], IAlways)
+  | SIdentity => ([], IAlways)
+  | SVec xs => let rs := map (rc_sub a) xs in
+               (List.concat (map fst rs),
+                interest_all (existsb (fun r => is_never (snd r)) rs) (forallb (fun r => is_always (snd r)) rs))
+  | SPair o i => rc_pick (rc_sub a o) (rc_sub a i)
+  | SProbe f => filt_rc a f
+  end.
+Fixpoint rc_coll (a : arg) (c : coll) : list entry * interest :=
+  match c with
+  | CLeaf i b => (if b_registry b then [] else [(i, register_callsite, a)], r_interest b (a_cs a))
+  | CWrap _ c' => rc_coll a c'
+  | CLayered s c' => rc_pick (rc_sub a s) (rc_coll a c')
+  end.
+
 (** No `and_then` pair anywhere (the one place where finding F18 shows). *)
 Fixpoint pair_free_sub (s : sub) : bool :=
   match s with
@@ -137,30 +180,30 @@ Definition no_drop_op (o : op) : bool := match o with ODropSpan _ => false | _ =
 (** ** What one dispatcher-level operation must log on a stack, by the property (used by the driver as a second oracle) *)
 Definition expected_event (c : coll) (a : arg) : list entry :=
   let (asked, ok) := until_veto (q_ans QEvent a) (coll_ask c) in
-  ents event_enabled a asked ++ (if ok then (root_id c, event, a) :: ents on_event a (coll_recv false on_event c) else []).
+  ents event_enabled a asked ++ (if ok then root_ents c event a ++ ents on_event a (coll_recv false on_event c) else []).
 
 (** The whole exactly-once / order / veto clause at the level the harness observes: the callback log of one dispatcher-level
-    operation on a stack ([None]: no claim — `max_level_hint`, and `register_callsite` on a non-linear stack). *)
+    operation on a stack ([None]: no claim — only `max_level_hint`). *)
 Definition spec_op (c : coll) (o : op) : option (list entry) :=
-  let r := root_id c in
+  let r := root_ents c in
   match o with
-  | ORegisterCallsite cs => if linear c then Some (fst (rc_until cs (coll_ask c))) else None
+  | ORegisterCallsite cs => Some (fst (rc_coll (cs, 0, 0) c))
   | OEnabled cs => Some (ents enabled (cs, 0, 0) (fst (until_veto (q_ans QEnabled (cs, 0, 0)) (coll_ask c))))
   | OHint => None
-  | ONewSpan cs k => Some ((r, new_span, (cs, k, 0)) :: ents on_new_span (cs, k, 0) (coll_recv false on_new_span c))
-  | ORecord id => Some ((r, record, (0, id, 0)) :: ents on_record (0, id, 0) (coll_recv false on_record c))
-  | OFollows id id2 => Some ((r, record_follows_from, (0, id, id2)) :: ents on_follows_from (0, id, id2) (coll_recv false on_follows_from c))
+  | ONewSpan cs k => Some (r new_span (cs, k, 0) ++ ents on_new_span (cs, k, 0) (coll_recv false on_new_span c))
+  | ORecord id => Some (r record (0, id, 0) ++ ents on_record (0, id, 0) (coll_recv false on_record c))
+  | OFollows id id2 => Some (r record_follows_from (0, id, id2) ++ ents on_follows_from (0, id, id2) (coll_recv false on_follows_from c))
   | OEvent cs => Some (expected_event c (cs, 0, 0))
-  | OEnter id => Some ((r, enter, (0, id, 0)) :: ents on_enter (0, id, 0) (coll_recv false on_enter c))
-  | OExit id => Some ((r, exit, (0, id, 0)) :: ents on_exit (0, id, 0) (coll_recv false on_exit c))
+  | OEnter id => Some (r enter (0, id, 0) ++ ents on_enter (0, id, 0) (coll_recv false on_enter c))
+  | OExit id => Some (r exit (0, id, 0) ++ ents on_exit (0, id, 0) (coll_recv false on_exit c))
   | OClone id =>
-      let nw := b_clone (root_beh c) id in
-      Some ((r, clone_span, (0, id, 0)) :: (if nw =? id then [] else ents on_id_change (0, id, nw) (coll_recv false on_id_change c)))
+      let nw := r_clone (root_beh c) id in
+      Some (r clone_span (0, id, 0) ++ (if nw =? id then [] else ents on_id_change (0, id, nw) (coll_recv false on_id_change c)))
   | OTryClose id =>
-      Some ((r, try_close, (0, id, 0)) :: (if b_close (root_beh c) id then ents on_close (0, id, 0) (coll_recv false on_close c) else []))
+      Some (r try_close (0, id, 0) ++ (if b_close (root_beh c) id then ents on_close (0, id, 0) (coll_recv false on_close c) else []))
   | ODropSpan id =>
       if coll_has_layer c
-      then Some ((r, try_close, (0, id, 0)) :: (if b_close (root_beh c) id then ents on_close (0, id, 0) (coll_recv false on_close c) else []))
-      else Some [(r, drop_span, (0, id, 0))]
-  | OCurrent => Some [(r, current_span, arg0)]
+      then Some (r try_close (0, id, 0) ++ (if b_close (root_beh c) id then ents on_close (0, id, 0) (coll_recv false on_close c) else []))
+      else Some (r drop_span (0, id, 0))
+  | OCurrent => Some (r current_span arg0)
   end.
